@@ -7,7 +7,7 @@ from rv.props import common as C
 from rv import oracles as O, refmodels as R, gen
 
 LEVEL = "exploration"
-RULE = ("bounded-exhaustive: every multiset of 1..7 (thorough 8) items over 1..C, C in 4..7 (completion reported as grid_exhaustive_complete_shards); then bin-completion on hardpack / repeat / threshold / random / planted integer instances with 1 <= v <= binsize, n <= 12; the number of bins "
+RULE = ("bounded-exhaustive: every multiset of 1..7 (thorough 8) items over 1..C, C in 4..7 (completion reported as grid_exhaustive_complete_shards); then bin-completion on hardpack / repeat / threshold / random / planted integer instances with 1 <= v <= binsize, n <= 12, and (40%) on a rejection-sampled class of 6..13 items on which both reference decreasing heuristics exceed ceil(total/binsize), i.e. bin-completion has to search (Partition always, all three output types on a quarter of them); the number of bins "
         "from Partition, Sums and BinCount is compared with the exact optimum (O2), with first-fit-decreasing and best-fit-decreasing; "
         "non-trivial = best-fit-decreasing uses more bins than the optimum (bin-completion had to improve on its starting point); distinct on (binsize, sorted values)")
 ASSUMPTIONS = ["O2 is an independent exact branch-and-bound (cross-checked against planted instances in rv.oracles.selfcheck)", "integer values, list presentation"]
@@ -29,7 +29,7 @@ def judge(case, ctx):
         ctx.inconc("oracle_budget", case)
         return
     counts = {}
-    for ot in ("Partition", "Sums", "BinCount"):
+    for ot in case.get("outputtypes") or ("Partition", "Sums", "BinCount"):
         r, names, vmap = C.run_pack_case(case, ot, ctx=ctx, pres="list")
         if r.timeout:
             ctx.inconc("timeout", case)
@@ -62,7 +62,29 @@ def judge(case, ctx):
         ctx.counters["ffd_not_optimal"] += 1
 
 
+def draw_search_needed(rng):
+    """
+    Volume class: instances on which bin-completion HAS to search - both reference decreasing heuristics (rv/refmodels.py) need more bins than ceil(total/binsize), so the
+    best-fit-decreasing incumbent is not provably optimal - found by rejection sampling with the cheap reference models (a few percent of the candidates pass).
+    Medium bin sizes, 6..13 items up to 2/3 of the bin, often with one or two tiny items (the completions that differ only by a tiny item are where dominance rules go wrong).
+    """
+    for _ in range(400):
+        Cs = rng.randint(8, 60)
+        n = rng.randint(6, 13)
+        top = max(2, (2 * Cs) // 3) if rng.random() < 0.7 else Cs
+        v = [rng.randint(1, top) for _ in range(n)]
+        if rng.random() < 0.4:
+            for _ in range(rng.choice([1, 1, 2])):
+                v[rng.randrange(n)] = rng.randint(1, 3)
+        if min(len(R.first_fit_decreasing(v, Cs)), len(R.best_fit_decreasing(v, Cs))) > -(-sum(v) // Cs):
+            break
+    ots = ("Partition", "Sums", "BinCount") if rng.random() < 0.25 else ("Partition",)
+    return {"kind": "pack", "alg": "bc", "C": Cs, "values": gen.arrange(rng, v, rng.choice(gen.ORDERS)), "cls": "search_needed", "pres": "list", "pres_seed": 0, "outputtypes": list(ots)}
+
+
 def draw(rng):
+    if rng.random() < 0.4:
+        return draw_search_needed(rng)
     cls = rng.choice(["hardpack", "hardpack", "repeat", "repeat", "repeat", "repeat_large", "repeat_large", "threshold", "random", "planted", "widerange"])
     Cs, v = gen.pack_instance(rng, cls, rng.choice([8, 10, 12]))
     v = [max(1, x) for x in v]
